@@ -128,6 +128,28 @@ func (r *Run) waitsForCycle() string {
 // twoLevelPrelude: epics, tasks inside them, dependencies across epics and
 // between epics, and moves of tasks between epics — the shapes in which the
 // effective waits-for relation can close a cycle that no single check sees.
+// cycleMotif: the three requests that together close a waits-for cycle through
+// an epic dependency (T in E1, C in E2, E1 depends on E2, C depends on T), in a
+// seeded order: whichever comes last must be refused.
+func (g *Gen) cycleMotif(base int) []Step {
+	e1, e2 := fmt.Sprintf("#%d", base), fmt.Sprintf("#%d", base+1)
+	t, c := fmt.Sprintf("#%d", base+2), fmt.Sprintf("#%d", base+3)
+	st := []Step{
+		{Cmd: &Cmd{Op: "new_epic", Title: sp("E1 " + g.text("title"))}}, {Cmd: &Cmd{Op: "new_epic", Title: sp("E2 " + g.text("title"))}},
+		{Cmd: &Cmd{Op: "new_task", Title: sp("T " + g.text("title"))}}, {Cmd: &Cmd{Op: "new_task", Title: sp("C " + g.text("title")), Epic: &e2}},
+	}
+	closing := []Step{
+		{Cmd: &Cmd{Op: "set", ID: t, Epic: &e1}},
+		{Cmd: &Cmd{Op: "sequence", IDs: []string{t, c}}},
+		{Cmd: &Cmd{Op: "sequence", IDs: []string{e2, e1}}},
+	}
+	for i := len(closing) - 1; i > 0; i-- {
+		j := g.R.Intn(i + 1)
+		closing[i], closing[j] = closing[j], closing[i]
+	}
+	return append(st, closing...)
+}
+
 func (g *Gen) twoLevelPrelude() []Step {
 	var st []Step
 	ne := 2 + g.R.Intn(2)
